@@ -21,7 +21,15 @@ RULE = ('value spaces, each indexed 0..size-1 and enumerated completely for ever
         'appear in sorted order; no number token of an integral value has a fraction; without indent there is no line break, '
         'with indent n every line break is followed by n x depth spaces. (inject) the whole enumerated set once more per '
         'indent in one process: equal texts imply equal values. A case is non-trivial when the text contains a string '
-        'that needs escaping or holds one of . 0 , ] }, a number token with a fraction or exponent, or an object with >= 2 keys.')
+        'that needs escaping or holds one of . 0 , ] }, a number token with a fraction or exponent, or an object with >= 2 keys. '
+        '(history) for every array/object of depth <= 2 over a small alphabet, every target (top level / first nested container) and every '
+        'documented mutator (arrayPush, arraySet, arrayPop, arrayShift, arrayDelete, arrayExtend, objectSet new/existing key, objectDelete, '
+        'objectAssign), direct and inside a script: parse T, mutate, parse T, mutate, parse T - every result is the value of T and no two '
+        'results share a container; stringify v, mutate v, stringify v, stringify a fresh copy of the original - every text decodes to '
+        'the value at that moment; non-trivial when the mutation changed the value. (pairs) every ordered pair of values built from the '
+        'colliding leaves 1, 1.0, true, "1", null, 0, false, "", -0.0, "true", "null": interleaved parses of both texts and '
+        'stringification of short-lived temporaries (id reuse). (indents) a 2 220-value set under every indent argument null, -1, 0, 1..12 in '
+        'both tiers, int in the direct call and float in the script.')
 ASSUMPTIONS = [
     'equality of values is BareScript equality: numbers by value (1 == 1.0, -0.0 == 0), booleans are not numbers',
     'json.loads of the standard library is the "standard JSON parser" of the property; the independent lexer is strict RFC 8259 '
@@ -31,6 +39,10 @@ ASSUMPTIONS = [
     'separators, empty containers and ASCII escaping of non-ASCII characters are UNSPECIFIED',
     'sorted order of keys = code point order (equal to UTF-16 order for the generated keys)',
     'nested3 is not part of the cross-value injectivity pass (memory); injectivity inside it follows from the decode checks',
+    'indent 0 and negative indents are outside the documented argument range (the argument model says >= 1): UNSPECIFIED - only a '
+    'returned text that does not decode to v would be reported; indents above 12 are not exercised',
+    'the mutators used in the history family are trusted only to be deterministic: the expected value after a mutation is a snapshot '
+    'of what the mutator produced, not a model of the mutator (that is C15)',
 ]
 
 S1_ALPHABET = ['a', '.', '0', ',', ']', '}']
@@ -382,11 +394,12 @@ def _reject_constant(name):
     raise ValueError(name)
 
 
-def check_value(case, acc):
+def check_value(case, acc, v=PRUNED, script_indent=None):
     """case: {'space': name, 'tier': tier, 'idx': index, 'indent': None|n}."""
     im = impl()
     F, bs = im['F'], im['bs']
-    v = space(case['space'], case['tier']).at(case['idx'])
+    if v is PRUNED:
+        v = space(case['space'], case['tier']).at(case['idx'])
     indent = case['indent']
     text = F['jsonStringify']([v] if indent is None else [v, indent], None)
     acc.evals += 1
@@ -404,7 +417,7 @@ def check_value(case, acc):
         if indent is None:
             res = bs.execute_script(im['s_plain'], {'globals': {'vv': v}})
         else:
-            res = bs.execute_script(im['s_indent'], {'globals': {'vv': v, 'ind': indent}})
+            res = bs.execute_script(im['s_indent'], {'globals': {'vv': v, 'ind': indent if script_indent is None else script_indent}})
     except Exception as exc:  # pylint: disable=broad-exception-caught
         res = ('raise', type(exc).__name__, str(exc))
     acc.evals += 3
@@ -514,6 +527,379 @@ def fam_inject(arg):
 # ---------------------------------------------------------------------------------------------------------------------
 
 
+# ---------------------------------------------------------------------------------------------------------------------
+# call histories: jsonParse / jsonStringify must not remember anything between calls
+
+
+HIST_LEAVES = {'quick': [1.5, 'x'], 'thorough': [None, 1.5, 'x']}
+HIST_TOP_LEAVES = [None, 1.5, 'x']
+HIST_KEYS = ['b', 'a']
+HIST_INDENTS = [None, 2]
+TARGETS = ['top', 'nested']
+MUTATIONS = ['push', 'set0', 'pop', 'shift', 'del0', 'extend', 'oset-new', 'oset-old', 'odel', 'oassign']
+HIST_VIAS = ['direct', 'script']
+PAIR_LEAVES = [1, 1.0, True, '1', None, 0, False, '', -0.0, 'true', 'null']
+PAIR_CONTEXTS = {'quick': ['top', 'arr', 'obj', 'arr-arr'], 'thorough': ['top', 'arr', 'obj', 'arr-arr', 'arr2', 'obj-arr']}
+
+
+def hist_space(tier):
+    key = ('hist', tier)
+    if key not in _CACHE:
+        inner = enumerate_all(Union([ArrSpace(HIST_LEAVES[tier], 2), ObjSpace(HIST_KEYS, HIST_LEAVES[tier], 2)]))
+        pool = HIST_TOP_LEAVES + inner
+        _CACHE[key] = Union([ArrSpace(pool, 2), ObjSpace(HIST_KEYS, pool, 2)])
+    return _CACHE[key]
+
+
+def hist_size(tier):
+    n = len(HIST_LEAVES[tier])
+    pool = 3 + (1 + n + n * n) + (n + 1) ** 2
+    return (1 + pool + pool * pool) + (pool + 1) ** 2
+
+
+def pair_values(tier):
+    out = []
+    for ctx in PAIR_CONTEXTS[tier]:
+        for x in PAIR_LEAVES:
+            out.append({'top': x, 'arr': [x], 'obj': {'a': x}, 'arr-arr': [[x]], 'arr2': [x, x], 'obj-arr': {'a': [x]}}[ctx])
+    return out
+
+
+def clone(v):
+    """Own deep copy of a JSON value (fresh containers everywhere)."""
+    if isinstance(v, list):
+        return [clone(x) for x in v]
+    if isinstance(v, dict):
+        return {k: clone(x) for k, x in v.items()}
+    return v
+
+
+def ref_text(v):
+    """Compact JSON text of a value written by the reference writer (input for jsonParse)."""
+    from ..ref import values as rv  # pylint: disable=import-outside-toplevel
+    return rv.json_text(v)
+
+
+def container_ids(v, out=None):
+    out = {} if out is None else out
+    if isinstance(v, (list, dict)):
+        out[id(v)] = v
+        for x in (v if isinstance(v, list) else v.values()):
+            container_ids(x, out)
+    return out
+
+
+def shares(a, b):
+    return bool(set(container_ids(a)) & set(container_ids(b)))
+
+
+def locate(v, target):
+    """-> (kind, locator): the container to mutate. 'top' is v itself; 'nested' the first member that is a container."""
+    if target == 'top':
+        return ('top', None) if isinstance(v, (list, dict)) else None
+    if isinstance(v, list):
+        for i, x in enumerate(v):
+            if isinstance(x, (list, dict)):
+                return ('index', i)
+    elif isinstance(v, dict):
+        for k, x in v.items():
+            if isinstance(x, (list, dict)):
+                return ('key', k)
+    return None
+
+
+def resolve(v, loc):
+    if loc[0] == 'top':
+        return v
+    return v[loc[1]]
+
+
+def applicable(container, mutation):
+    if mutation in ('push', 'extend'):
+        return isinstance(container, list)
+    if mutation in ('set0', 'pop', 'shift', 'del0'):
+        return isinstance(container, list) and len(container) > 0
+    if mutation in ('oset-new', 'oassign'):
+        return isinstance(container, dict)
+    return isinstance(container, dict) and len(container) > 0
+
+
+def mutate_direct(container, mutation):
+    F = impl()['F']
+    if mutation == 'push':
+        F['arrayPush']([container, 9], None)
+    elif mutation == 'set0':
+        F['arraySet']([container, 0, 9], None)
+    elif mutation == 'pop':
+        F['arrayPop']([container], None)
+    elif mutation == 'shift':
+        F['arrayShift']([container], None)
+    elif mutation == 'del0':
+        F['arrayDelete']([container, 0], None)
+    elif mutation == 'extend':
+        F['arrayExtend']([container, [9]], None)
+    elif mutation == 'oset-new':
+        F['objectSet']([container, 'z', 9], None)
+    elif mutation == 'oset-old':
+        F['objectSet']([container, sorted(container)[0], 9], None)
+    elif mutation == 'odel':
+        F['objectDelete']([container, sorted(container)[0]], None)
+    else:
+        F['objectAssign']([container, {'z': 9}], None)
+
+
+_MUT_SRC = {
+    'push': 'arrayPush({t}, 9)', 'set0': 'arraySet({t}, 0, 9)', 'pop': 'arrayPop({t})', 'shift': 'arrayShift({t})',
+    'del0': 'arrayDelete({t}, 0)', 'extend': 'arrayExtend({t}, arrayNew(9))', 'oset-new': "objectSet({t}, 'z', 9)",
+    'oset-old': 'objectSet({t}, k2, 9)', 'odel': 'objectDelete({t}, k2)', 'oassign': "objectAssign({t}, objectNew('z', 9))",
+}
+_LOC_SRC = {'top': '{r}', 'index': 'arrayGet({r}, kk)', 'key': 'objectGet({r}, kk)'}
+
+
+def hist_script(kind, lockind, mutation):
+    key = ('hs', kind, lockind, mutation)
+    if key not in _IMPL:
+        lines = []
+        if kind == 'parse':
+            for n in (1, 2):
+                lines.append(f'r{n} = jsonParse(tt)')
+                lines.append(f't{n} = ' + _LOC_SRC[lockind].format(r=f'r{n}'))
+                lines.append(_MUT_SRC[mutation].format(t=f't{n}'))
+            lines.append('r3 = jsonParse(tt)')
+            lines.append('return arrayNew(r1, r2, r3)')
+        else:
+            lines.append('s1 = if(ind == null, jsonStringify(vv), jsonStringify(vv, ind))')
+            lines.append('t1 = ' + _LOC_SRC[lockind].format(r='vv'))
+            lines.append(_MUT_SRC[mutation].format(t='t1'))
+            lines.append('s2 = if(ind == null, jsonStringify(vv), jsonStringify(vv, ind))')
+            lines.append('s3 = if(ind == null, jsonStringify(v2), jsonStringify(v2, ind))')
+            lines.append('return arrayNew(s1, s2, s3)')
+        _IMPL[key] = impl()['bs'].parse_script('\n'.join(lines))
+    return _IMPL[key]
+
+
+def decodes_to(text, want):
+    """The text is valid JSON for the independent parser and decodes to `want`."""
+    if not isinstance(text, str):
+        return False
+    try:
+        got, _info = jl.loads(text)
+    except jl.JsonError:
+        return False
+    return jl.equal(got, want)
+
+
+def check_hparse(case, acc):
+    """r1 = jsonParse(T); mutate r1; r2 = jsonParse(T); mutate r2; r3 = jsonParse(T)."""
+    tier, target, mutation, via = case['tier'], case['target'], case['mutation'], case['via']
+    v = hist_space(tier).at(case['idx'])
+    loc = locate(v, target)
+    if loc is None or not applicable(resolve(v, loc), mutation):
+        return 'pruned'
+    text = ref_text(v)
+    case = dict(case, text=text)
+    im = impl()
+    F = im['F']
+    if via == 'direct':
+        r1 = F['jsonParse']([text], None)
+        ok1 = jl.equal(r1, v)
+        if ok1:
+            mutate_direct(resolve(r1, loc), mutation)
+        snap1 = clone(r1)
+        r2 = F['jsonParse']([str(text)], None)
+        ok2 = jl.equal(r2, v)
+        still1 = jl.equal(r1, snap1)
+        if ok2:
+            mutate_direct(resolve(r2, loc), mutation)
+        r3 = F['jsonParse']([text], None)
+        acc.evals += 5
+        if not ok1:
+            acc.violation(case, v, r1, 'jsonParse(T) is not the value of the text T')
+            return 'bad'
+        if not ok2:
+            acc.violation(case, v, r2, 'jsonParse(T) after an earlier result of jsonParse(T) was mutated is not the value of T')
+        if not still1:
+            acc.violation(case, snap1, r1, 'a second jsonParse(T) changed the (mutated) result of the first call')
+    else:
+        glob = {'tt': text, 'kk': loc[1], 'k2': sorted(resolve(v, loc))[0] if isinstance(resolve(v, loc), dict) and resolve(v, loc) else None}
+        res = im['bs'].execute_script(hist_script('parse', loc[0], mutation), {'globals': glob})
+        acc.evals += 5
+        if not (isinstance(res, list) and len(res) == 3):
+            acc.violation(case, 'three parsed values', res, 'the history script did not run as written')
+            return 'bad'
+        r1, r2, r3 = res
+        snap1 = r1
+        if not jl.equal(r1, r2):
+            acc.violation(case, r1, r2, 'the same mutation of two results of jsonParse(T) gives different values (the second parse did not return the value of T)')
+    if not jl.equal(r3, v):
+        acc.violation(case, v, r3, 'jsonParse(T) after two earlier results were mutated is not the value of T')
+    if shares(r1, r2) or shares(r1, r3) or shares(r2, r3):
+        acc.violation(case, 'fresh containers on every call', 'a container object is shared between two results', 'two calls of jsonParse(T) returned the same container object')
+    return 'changed' if not jl.equal(snap1, v) else 'unchanged'
+
+
+def check_hstringify(case, acc):
+    """s1 = jsonStringify(v); mutate v; s2 = jsonStringify(v); s3 = jsonStringify(fresh copy of the original)."""
+    tier, target, mutation, via, indent = case['tier'], case['target'], case['mutation'], case['via'], case['indent']
+    orig = hist_space(tier).at(case['idx'])
+    loc = locate(orig, target)
+    if loc is None or not applicable(resolve(orig, loc), mutation):
+        return 'pruned'
+    v = clone(orig)
+    v2 = clone(orig)
+    im = impl()
+    if via == 'direct':
+        s1 = stringify(v, indent)
+        mutate_direct(resolve(v, loc), mutation)
+        s2 = stringify(v, indent)
+        s3 = stringify(v2, indent)
+        acc.evals += 4
+    else:
+        cont = resolve(v, loc)
+        glob = {'vv': v, 'v2': v2, 'ind': indent, 'kk': loc[1], 'k2': sorted(cont)[0] if isinstance(cont, dict) and cont else None}
+        res = im['bs'].execute_script(hist_script('stringify', loc[0], mutation), {'globals': glob})
+        acc.evals += 4
+        if not (isinstance(res, list) and len(res) == 3):
+            acc.violation(case, 'three texts', res, 'the history script did not run as written')
+            return 'bad'
+        s1, s2, s3 = res
+    snap = clone(v)
+    if not decodes_to(s1, orig):
+        acc.violation(case, orig, s1, 'jsonStringify(v) does not decode to v')
+        return 'bad'
+    if not decodes_to(s2, snap):
+        acc.violation(case, snap, s2, 'jsonStringify(v) after v was serialised once and then mutated does not decode to the mutated v')
+    if not decodes_to(s3, orig):
+        acc.violation(case, orig, s3, 'jsonStringify of a fresh copy of the original value, after the original was mutated, does not decode to it')
+    return 'changed' if not jl.equal(snap, orig) else 'unchanged'
+
+
+def fam_history(arg):
+    tier, kind, start, stop = arg
+    acc = Acc('history')
+    sp = hist_space(tier)
+    for idx in range(start, stop):
+        for target in TARGETS:
+            for mutation in MUTATIONS:
+                for via in HIST_VIAS:
+                    for indent in ([None] if kind == 'parse' else HIST_INDENTS):
+                        acc.cases += 1
+                        case = {'kind': kind, 'tier': tier, 'idx': idx, 'target': target, 'mutation': mutation, 'via': via, 'indent': indent,
+                                'value': label_of(sp.at(idx))}
+                        out = (check_hparse if kind == 'parse' else check_hstringify)(case, acc)
+                        if out == 'pruned':
+                            acc.pruned += 1
+                        elif out == 'changed':
+                            acc.nontrivial += 1
+                        acc.outcome((kind, out, target, mutation))
+        if idx == start:
+            acc.sample({'kind': kind, 'value': label_of(sp.at(idx)), 'history': 'parse, mutate, parse, mutate, parse' if kind == 'parse'
+                        else 'stringify, mutate, stringify, stringify(fresh copy)'})
+    return acc.result()
+
+
+def check_pair(case, acc):
+    """Two different values / texts interleaved: parse(Ta), parse(Tb), parse(Ta), parse(Tb); stringify of temporaries a, b, a."""
+    tier, indent = case['tier'], case['indent']
+    vals = pair_values(tier)
+    a, b = vals[case['a']], vals[case['b']]
+    F = impl()['F']
+    ta, tb = ref_text(a), ref_text(b)
+    res = [F['jsonParse']([t], None) for t in (ta, tb, str(ta), str(tb))]
+    acc.evals += 4
+    for r, want, name in zip(res, (a, b, a, b), ('Ta', 'Tb', 'Ta again', 'Tb again')):
+        if not jl.equal(r, want):
+            acc.violation(dict(case, step='parse ' + name, texts=[ta, tb]), want, r, f'in the history parse(Ta), parse(Tb), parse(Ta), parse(Tb) the result for {name} is not its value')
+            break
+    if any(shares(res[i], res[j]) for i in range(4) for j in range(i + 1, 4)):
+        acc.violation(dict(case, step='parse', texts=[ta, tb]), 'fresh containers', 'shared container', 'two calls of jsonParse returned the same container object')
+    # temporaries: each argument is dropped right after the call (id reuse)
+    outs = [stringify(clone(x), indent) for x in (a, b, a)]
+    keep = clone(a)
+    outs.append(stringify(keep, indent))
+    outs.append(stringify(clone(b), indent))
+    acc.evals += 5
+    for text, want, name in zip(outs, (a, b, a, a, b), ('a', 'b', 'a again', 'a (kept alive)', 'b again')):
+        if not decodes_to(text, want):
+            acc.violation(dict(case, step='stringify ' + name, values=[label_of(a), label_of(b)]), want, text,
+                          f'in the history stringify(a), stringify(b), stringify(a), ... the text for {name} does not decode to its value')
+            break
+    return jl.equal(a, b)
+
+
+def fam_pairs(arg):
+    tier, rows = arg
+    acc = Acc('pairs')
+    n = len(pair_values(tier))
+    for i in rows:
+        for j in range(n):
+            for indent in HIST_INDENTS:
+                acc.cases += 1
+                same = check_pair({'tier': tier, 'a': i, 'b': j, 'indent': indent}, acc)
+                if not same:
+                    acc.nontrivial += 1
+                acc.outcome((same, indent))
+        acc.sample({'a': label_of(pair_values(tier)[i]), 'b': label_of(pair_values(tier)[(i * 7 + 3) % n])})
+    return acc.result()
+
+
+# ---------------------------------------------------------------------------------------------------------------------
+# every indent, in both tiers
+
+
+ALL_INDENTS = [None] + list(range(-1, 13))        # null, -1, 0 (outside the documented range: UNSPECIFIED), 1..12
+INDENT_CONTEXTS = ['arr-last', 'obj-mixed']
+
+
+def indent_space():
+    if 'indent_space' not in _CACHE:
+        s1 = all_strings(S1_ALPHABET, 3)
+        items = [in_context(s, ctx) for s in s1 for ctx in INDENT_CONTEXTS]
+        items += [[x] for x in NUM_SPECIALS] + [{'a': [x, -x]} for x in NUM_SPECIALS]
+        items += [DeepSpace(3).at(i) for i in range(DeepSpace(3).size)]
+        _CACHE['indent_space'] = Union([space('flat', 'quick'), ListSpace(items)])
+    return _CACHE['indent_space']
+
+
+INDENT_SPACE_SIZE = 1100 + (1 + 6 + 36 + 216) * 2 + 21 * 2 + (1 + 3 + 9 + 27) * 14
+
+
+def check_indent(case, acc):
+    """One value, one indent argument (int for the direct call, float in the script)."""
+    indent = case['indent']
+    v = indent_space().at(case['idx'])
+    if indent is None or indent >= 1:
+        nontrivial, dig = check_value(dict(case, space='indents'), acc, v=v, script_indent=None if indent is None else float(indent))
+        return nontrivial, dig
+    # indent 0 / negative: the doc comment says "The indentation number", the argument model says >= 1: UNSPECIFIED.
+    acc.unspecified += 1
+    try:
+        text = impl()['F']['jsonStringify']([v, indent], None)
+    except Exception:  # pylint: disable=broad-exception-caught
+        return False, ('outside', 'raise')
+    acc.evals += 1
+    if isinstance(text, str) and not decodes_to(text, v):
+        acc.violation(dict(case, value=label_of(v)), v, text, 'jsonStringify with an indent outside the documented range returned a text that does not decode to v')
+    return False, ('outside', type(text).__name__)
+
+
+def fam_indents(arg):
+    start, stop = arg
+    acc = Acc('indents')
+    sp = indent_space()
+    for idx in range(start, stop):
+        label = label_of(sp.at(idx))
+        for indent in ALL_INDENTS:
+            acc.cases += 1
+            nontrivial, dig = check_indent({'idx': idx, 'indent': indent, 'value': label}, acc)
+            if nontrivial:
+                acc.nontrivial += 1
+            acc.outcome((dig, indent))
+        if idx == start:
+            acc.sample({'value': label, 'indents': ALL_INDENTS[1:], 'text_indent_12': ascii(stringify(sp.at(idx), 12))[:120]})
+    return acc.result()
+
+
 def families(tier):
     fams = []
     nshards = {'strings': 24, 'flat': 8, 'nested': 48, 'nested3': 64, 'deep': 8, 'numbers': 24}
@@ -537,7 +923,27 @@ def families(tier):
     fams.append(Family('inject', fam_inject, [(tier, ind) for ind in INDENTS[tier]],
                        f'all values of {INJECT_SPACES} once more, one pass per indent in {INDENTS[tier]} (numbers: indents {NUM_INDENTS}): '
                        'equal texts imply equal values', expected=total))
-    return fams
+    nh = hist_size(tier)
+    per = len(TARGETS) * len(MUTATIONS) * len(HIST_VIAS)
+    hshards = [(tier, 'parse', r[0], r[-1] + 1) for r in split(list(range(nh)), 8)] + \
+              [(tier, 'stringify', r[0], r[-1] + 1) for r in split(list(range(nh)), 12)]
+    fams.append(Family('history', fam_history, hshards,
+                       f'{nh} arrays/objects of depth <= 2 over {HIST_TOP_LEAVES} / {HIST_LEAVES[tier]} x target {TARGETS} x mutation {MUTATIONS} x '
+                       f'{HIST_VIAS}: parse-mutate-parse-mutate-parse; stringify-mutate-stringify-stringify(copy) with indent in {HIST_INDENTS} '
+                       '(inapplicable target/mutation combinations pruned)',
+                       expected=nh * per * (1 + len(HIST_INDENTS))))
+    npv = len(PAIR_LEAVES) * len(PAIR_CONTEXTS[tier])
+    fams.append(Family('pairs', fam_pairs, [(tier, r) for r in split(list(range(npv)), 11)],
+                       f'every ordered pair of {npv} values ({len(PAIR_LEAVES)} colliding leaves 1/1.0/true/"1"/null/0/false/""/-0.0/"true"/"null" x contexts '
+                       f'{PAIR_CONTEXTS[tier]}) x indent {HIST_INDENTS}: interleaved parses and stringification of short-lived temporaries',
+                       expected=npv * npv * len(HIST_INDENTS)))
+    fams.append(Family('indents', fam_indents, [(r[0], r[-1] + 1) for r in split(list(range(INDENT_SPACE_SIZE)), 16)],
+                       f'{INDENT_SPACE_SIZE} values (flat space, strings of length <= 3 in 2 contexts, special numbers, paths of <= 3 steps) x '
+                       f'indent in {ALL_INDENTS} (same in both tiers; script path passes the indent as a float)',
+                       expected=INDENT_SPACE_SIZE * len(ALL_INDENTS)))
+    # the self-contained call histories first: their violations replay on their own even when the defect is a cache
+    # whose effect on the other families depends on everything a shard did before
+    return fams[-3:] + fams[:-3]
 
 
 def expected_size(name, tier):
@@ -569,6 +975,12 @@ def replay(family, case):
     acc = Acc(family)
     if family == 'inject':
         check_inject(case, acc)
+    elif family == 'history':
+        (check_hparse if case['kind'] == 'parse' else check_hstringify)(case, acc)
+    elif family == 'pairs':
+        check_pair(case, acc)
+    elif family == 'indents':
+        check_indent(case, acc)
     else:
         check_value(case, acc)
     res = acc.result()
